@@ -522,3 +522,35 @@ def _guard_atom(fa: FA, n: int, test: ast.AST):
     if isinstance(r, tuple):
         return r
     return None
+
+
+def stores_on_self(fa: FA) -> List[Tuple[int, str]]:
+    """[(line, description)] of everything a method writes onto its instance: attribute (re)bindings, element stores into attribute
+    containers (self.a[k] = v, also as the first target of a chained assignment), and mutating container methods on attributes."""
+    out: List[Tuple[int, str]] = []
+    me = fa.self_name
+    if me is None:
+        return out
+
+    def root_is_self_attr(e):
+        while isinstance(e, (ast.Subscript,)):
+            e = e.value
+        return isinstance(e, ast.Attribute) and isinstance(e.value, ast.Name) and e.value.id == me
+
+    for x in ast.walk(fa.fi.node):
+        if isinstance(x, (ast.Assign, ast.AugAssign, ast.AnnAssign)):
+            tgs = x.targets if isinstance(x, ast.Assign) else [x.target]
+            for t in tgs:
+                for y in ast.walk(t):
+                    if isinstance(y, ast.Attribute) and isinstance(y.ctx, ast.Store) and isinstance(y.value, ast.Name) and y.value.id == me:
+                        out.append((x.lineno, f"self.{y.attr} = ..."))
+                    if isinstance(y, ast.Subscript) and isinstance(y.ctx, ast.Store) and root_is_self_attr(y):
+                        out.append((x.lineno, f"{ast.unparse(y)[:40]} = ..."))
+        if isinstance(x, ast.Call) and isinstance(x.func, ast.Attribute) and x.func.attr in (
+                "append", "extend", "insert", "add", "update", "setdefault", "pop", "popitem", "clear", "remove", "discard",
+                "__setitem__", "appendleft") and root_is_self_attr(x.func.value):
+            out.append((x.lineno, f"{ast.unparse(x.func)[:40]}(...)"))
+        if isinstance(x, ast.Call) and isinstance(x.func, ast.Name) and x.func.id == "setattr" and x.args and \
+                isinstance(x.args[0], ast.Name) and x.args[0].id == me:
+            out.append((x.lineno, "setattr(self, ...)"))
+    return out
